@@ -6,7 +6,6 @@ open CnbVerif.Codec
 
 theorem valid_plain (s : String) : StrV.plain.valid s = true := rfl
 theorem valid_path (s : String) : StrV.path.valid s = true := rfl
-theorem valid_uri (s : String) : StrV.uri.valid s = true := rfl
 
 theorem all_map_true {α} (f : α → Val) (s : Schema) (l : List α) (h : ∀ x ∈ l, hasType s (f x) = true) :
     (l.map f).all (hasType s) = true := by
@@ -72,12 +71,13 @@ theorem hasType_execd (kvs : List (String × String)) (h : ∀ kv ∈ kvs, StrV.
   intro kv hkv
   simp only [Function.comp, h kv hkv, hasType, valid_plain, Bool.and_self]
 
-theorem hasType_package (p : Package) (h : p.os = "linux" ∨ p.os = "windows") :
+theorem hasType_package (p : Package) (h : p.os = "linux" ∨ p.os = "windows")
+    (hb : StrV.uri.valid p.buildpack = true) (hdeps : ∀ u ∈ p.dependencies, StrV.uri.valid u = true) :
     hasType Gen.S.PackageDescriptor p.toVal = true := by
   have hd := all_map_true (fun u => Val.record [("uri", .str u)]) Gen.S.PackageDescriptorDependency p.dependencies
-    (fun x _ => by simp [Gen.S.PackageDescriptorDependency, hasType, hasTypeFields, valid_uri])
+    (fun x hx => by simp [Gen.S.PackageDescriptorDependency, hasType, hasTypeFields, hdeps x hx])
   rcases h with h | h <;>
     simp only [Gen.S.PackageDescriptor, Gen.S.PackageDescriptorBuildpackReference, Gen.S.Platform, Package.toVal, hasType, hasTypeFields, h] <;>
-    rw [hd] <;> simp [valid_uri, StrV.valid]
+    rw [hd, hb] <;> simp [StrV.valid]
 
 end CnbVerif.Cnb
